@@ -35,14 +35,40 @@ Proof. exact union_trajectory. Qed.
 Print Assumptions C17_union_trajectory.
 
 (* Full statement: for every circuit (with or without extrinsic input series, which grid_search broadcasts to every
-   copy), parameter map, grid (zipped or permuted), step size and number of steps,
-   the state of sub-circuit r at step j of the sweep is the state at step j of the circuit adapted with row r alone *)
-Theorem C17_full : forall C pmap vals permute dt n rows tr,
-  grid_impl C pmap vals permute dt n = Some (rows, tr) ->
+   copy), parameter map, grid (zipped or permuted), step size and number of steps, the state of sub-circuit r at step j of
+   the sweep is the state at step j of the circuit adapted with row r alone. *)
+Definition C17_full_statement (fx : bool) : Prop := forall C pmap vals permute dt n rows tr,
+  grid_impl_gen fx C pmap vals permute dt n = Some (rows, tr) ->
   linearize (Q2Qc 0) vals permute = Some rows /\
   forall r j, r < length rows -> nth r (nth j tr []) [] = nth j (nth r (grid_spec C pmap rows dt n) []) [].
-Proof. exact grid_impl_spec. Qed.
-Print Assumptions C17_full.
+
+(* It is false of the code as it is: adapt_circuit looks an edge target (source, target, idx) up with idx but hands only
+   (source, target, values) to update_var, which writes parallel edge 0 — sweeping the second of two parallel edges
+   sweeps the first (witness replayed on the real code: corpus/C17/C17-edge-idx-ignored.json) *)
+Theorem C17_idx_ignored_refuted :
+  idx_guard par_circ [[TW 1]] = false /\
+  edges (adapt_gen false par_circ [[TW 1]] [qz 5]) = [(0, 1, qz 5); (0, 1, qz 2)] /\
+  edges (adapt par_circ [[TW 1]] [qz 5]) = [(0, 1, qz 1); (0, 1, qz 5)] /\
+  (match grid_impl_gen false par_circ [[TW 1]] [[qz 5]] false (qz 1) 2 with Some (_, tr) => nth 1 (nth 0 (nth 1 tr []) []) (qz 0) | None => qz 0 end) = qz 7 /\
+  nth 1 (nth 1 (nth 0 (grid_spec par_circ [[TW 1]] [[qz 5]] (qz 1) 2) []) []) (qz 0) = qz 6.
+Proof. exact idx_ignored_refuted. Qed.
+Print Assumptions C17_idx_ignored_refuted.
+
+(* ... true under the decidable guard "every swept edge is parallel edge 0 of its (source, target) pair" ... *)
+Theorem C17_partial : forall C pmap vals permute dt n rows tr, idx_guard C pmap = true ->
+  grid_impl_gen false C pmap vals permute dt n = Some (rows, tr) ->
+  linearize (Q2Qc 0) vals permute = Some rows /\
+  forall r j, r < length rows -> nth r (nth j tr []) [] = nth j (nth r (grid_spec C pmap rows dt n) []) [].
+Proof. exact grid_impl_spec_partial. Qed.
+Print Assumptions C17_partial.
+Theorem C17_adapt_under_guard : forall C pmap row, idx_guard C pmap = true -> adapt_gen false C pmap row = adapt C pmap row.
+Proof. exact adapt_under_guard. Qed.
+Print Assumptions C17_adapt_under_guard.
+
+(* ... and without any guard once idx is passed through (proposed repair, /verif/fixes) *)
+Theorem C17_full_after_repair : C17_full_statement true.
+Proof. exact grid_impl_spec_repaired. Qed.
+Print Assumptions C17_full_after_repair.
 
 (* adapt_circuit: a written value reaches its target and leaves the other entries alone *)
 Theorem C17_write_hits : forall C i v, i < length (ks C) -> nth i (ks (write C (TK i, v))) (Q2Qc 0) = v.
@@ -56,7 +82,7 @@ Print Assumptions C17_write_frame.
 Example C17_nonvacuous :
   let q := fun z : nat => Q2Qc (inject_Z (Z.of_nat z)) in
   let C := {| ks := [q 1; q 2]; cs := [q 1; q 0]; x0 := [q 0; q 1]; edges := [(0, 1, q 1)]; uin := [[q 1; q 2; q 3]; []] |} in
-  match grid_impl C [[TK 0]; [TW 0]] [[q 1; q 2]; [q 3; q 4; q 5]] true (Q2Qc (1 # 8)) 3 with
+  match grid_impl_gen false C [[TK 0]; [TW 0]] [[q 1; q 2]; [q 3; q 4; q 5]] true (Q2Qc (1 # 8)) 3 with
   | Some (rows, tr) => rows = [[q 1; q 3]; [q 2; q 3]; [q 1; q 4]; [q 2; q 4]; [q 1; q 5]; [q 2; q 5]] /\ length tr = 3
   | None => False
   end.
